@@ -226,3 +226,149 @@ theorem iter_one (s : State) (now : Nat) (cmds : List Command) (h : OneEach s.re
   exact h
 
 end Mdns.Sched
+
+namespace Mdns.Sched
+open Mdns
+
+/-! ### no query for a type without a queued re-run or a new browse (C13) -/
+
+/-- the query a browse of `ty` sends -/
+def isQueryOf (ty : BList) : Out → Bool
+  | .query qs => qs == [(ty, 12)]
+  | _ => false
+
+def NoBrowse (ty : BList) (l : List Rerun) : Prop := l.filter (isBrowseOf ty) = []
+
+def isBrowseCmd (ty : BList) : Command → Bool
+  | .browse t _ _ => t == ty
+  | _ => false
+
+theorem execRerun_other (s : State) (hs : s.reruns = []) (now : Nat) (c : RCmd) (ty : BList)
+    (hc : ∀ n, isBrowseOf ty ⟨n, c⟩ = false) :
+    (execRerun s now c).2.all (fun o => !isQueryOf ty o) = true ∧
+    NoBrowse ty (execRerun s now c).1.reruns := by
+  cases c with
+  | browse t d ch =>
+    have hne : (t == ty) = false := by simpa [isBrowseOf] using hc 0
+    have hne' : ¬ t = ty := by simpa using hne
+    refine ⟨?_, ?_⟩
+    · simp [execRerun, execBrowse, isQueryOf, hne']
+    · simp [NoBrowse, execRerun, execBrowse, addRerun, hs, isBrowseOf, hne]
+  | resolveHost h d ch =>
+    simp only [execRerun, execResolve]
+    split
+    · simp [NoBrowse, hs]
+    · simp only [Bool.true_eq_false, ↓reduceIte]
+      refine ⟨by simp [isQueryOf], ?_⟩
+      split
+      · simp [NoBrowse, addRerun, hs, isBrowseOf]
+      · simp [NoBrowse, hs]
+
+theorem NoBrowse.append {ty : BList} {a b : List Rerun} (ha : NoBrowse ty a) (hb : NoBrowse ty b) :
+    NoBrowse ty (a ++ b) := by
+  simp [NoBrowse, List.filter_append] at *; exact ⟨ha, hb⟩
+
+theorem NoBrowse.of_append {ty : BList} {a b : List Rerun} (h : NoBrowse ty (a ++ b)) :
+    NoBrowse ty a ∧ NoBrowse ty b := by
+  simp [NoBrowse, List.filter_append] at *; exact h
+
+theorem runReruns_no_query (now : Nat) (ty : BList) : ∀ (fuel : Nat) (keep rest : List Rerun) (s : State),
+    s.reruns = [] → NoBrowse ty (keep ++ rest) →
+    (runReruns s now fuel keep rest).2.all (fun o => !isQueryOf ty o) = true ∧
+    NoBrowse ty (runReruns s now fuel keep rest).1.reruns
+  | 0, keep, rest, s, hs, h => by simp [runReruns, hs, h]
+  | fuel + 1, keep, [], s, hs, h => by simpa [runReruns, hs] using h
+  | fuel + 1, keep, r :: rest, s, hs, h => by
+    rw [runReruns]
+    have hk := (NoBrowse.of_append h).1
+    have hr : NoBrowse ty (r :: rest) := (NoBrowse.of_append h).2
+    have hr0 : isBrowseOf ty r = false := by
+      simp only [NoBrowse, List.filter_cons] at hr
+      cases hb : isBrowseOf ty r with
+      | false => rfl
+      | true => simp [hb] at hr
+    have hrest : NoBrowse ty rest := by
+      simp only [NoBrowse, List.filter_cons, hr0] at hr
+      exact hr
+    split
+    · have hex := execRerun_other { s with reruns := [] } rfl now r.cmd ty (fun n => by
+        obtain ⟨n0, c⟩ := r
+        cases c <;> simpa [isBrowseOf] using hr0)
+      have hrec := runReruns_no_query now ty fuel keep
+        (rest ++ (execRerun { s with reruns := [] } now r.cmd).1.reruns)
+        { (execRerun { s with reruns := [] } now r.cmd).1 with reruns := [] } rfl
+        (hk.append (hrest.append hex.2))
+      refine ⟨?_, hrec.2⟩
+      simp only [List.all_append, Bool.and_eq_true]
+      exact ⟨hex.1, hrec.1⟩
+    · exact runReruns_no_query now ty fuel (keep ++ [r]) rest s hs (by simpa using h)
+
+theorem execCommand_no_query (s : State) (now : Nat) (c : Command) (ty : BList)
+    (hc : isBrowseCmd ty c = false) (h : NoBrowse ty s.reruns) :
+    (execCommand s now c).2.all (fun o => !isQueryOf ty o) = true ∧
+    NoBrowse ty (execCommand s now c).1.reruns := by
+  have hfil : ∀ p : Rerun → Bool, NoBrowse ty (s.reruns.filter p) := by
+    intro p
+    simp only [NoBrowse] at *
+    rw [filter_filter_comm, h]; rfl
+  cases c with
+  | browse t ch co =>
+    have hne : (t == ty) = false := by simpa [isBrowseCmd] using hc
+    have hne' : ¬ t = ty := by simpa using hne
+    simp only [execCommand, execBrowse, Bool.false_eq_true, ↓reduceIte]
+    split
+    · exact ⟨by simp [isQueryOf], hfil _⟩
+    · refine ⟨by simp [isQueryOf, hne'], ?_⟩
+      simp only [addRerun]
+      exact (hfil _).append (by simp [NoBrowse, isBrowseOf, hne])
+  | stopBrowse t =>
+    simp only [execCommand, execStopBrowse]
+    split
+    · exact ⟨by simp, h⟩
+    · exact ⟨by simp [isQueryOf], hfil _⟩
+  | resolveHost host ch t =>
+    simp only [execCommand, execResolve, Bool.false_and, Bool.false_eq_true, ↓reduceIte]
+    refine ⟨by simp [isQueryOf], ?_⟩
+    repeat' split
+    all_goals first
+      | (simp only [addRerun]; exact (hfil _).append (by simp [NoBrowse, isBrowseOf]))
+      | exact hfil _
+  | stopResolve host =>
+    simp only [execCommand, execStopResolve]
+    split
+    · exact ⟨by simp, h⟩
+    · exact ⟨by simp [isQueryOf], hfil _⟩
+  | ipInterval ms => exact ⟨by simp [execCommand], h⟩
+
+theorem runCommands_no_query (now : Nat) (ty : BList) : ∀ (cs : List Command) (s : State),
+    cs.all (fun c => !isBrowseCmd ty c) = true → NoBrowse ty s.reruns →
+    (runCommands s now cs).2.all (fun o => !isQueryOf ty o) = true ∧
+    NoBrowse ty (runCommands s now cs).1.reruns
+  | [], s, _, h => by simp [runCommands, h]
+  | c :: cs, s, hc, h => by
+    simp only [List.all_cons, Bool.and_eq_true, Bool.not_eq_eq_eq_not, Bool.not_true] at hc
+    have h1 := execCommand_no_query s now c ty hc.1 h
+    have h2 := runCommands_no_query now ty cs (execCommand s now c).1 (by simpa using hc.2) h1.2
+    simp only [runCommands, List.all_append, Bool.and_eq_true]
+    exact ⟨⟨h1.1, h2.1⟩, h2.2⟩
+
+/-- an iteration without a new `browse ty` on a state with nothing queued for `ty` sends no
+    query for `ty` and leaves nothing queued for it -/
+theorem iter_no_query (s : State) (now : Nat) (cmds : List Command) (ty : BList)
+    (hc : cmds.all (fun c => !isBrowseCmd ty c) = true) (h : NoBrowse ty s.reruns) :
+    (iter s now cmds).2.all (fun o => !isQueryOf ty o) = true ∧ NoBrowse ty (iter s now cmds).1.reruns := by
+  unfold iter
+  simp only [runIpCheck_reruns]
+  have h1 := runCommands_no_query now ty cmds (runTimeouts { s with timers := s.timers.filter (· > now) } now).1
+    hc (by rw [runTimeouts_reruns]; exact h)
+  have h2 := runReruns_no_query now ty
+    ((runCommands (runTimeouts { s with timers := s.timers.filter (· > now) } now).1 now cmds).1.reruns.length * 2 + 2) []
+    (runCommands (runTimeouts { s with timers := s.timers.filter (· > now) } now).1 now cmds).1.reruns
+    { (runCommands (runTimeouts { s with timers := s.timers.filter (· > now) } now).1 now cmds).1 with reruns := [] } rfl
+    (by simpa using h1.2)
+  refine ⟨?_, h2.2⟩
+  simp only [List.all_append, Bool.and_eq_true]
+  refine ⟨⟨?_, h1.1⟩, h2.1⟩
+  simp [runTimeouts, isQueryOf]
+
+end Mdns.Sched
